@@ -167,16 +167,40 @@ func TestVerifRace(t *testing.T) {
 		}
 		return "ok"
 	}
+	dsse := func(i int) string {
+		out := ""
+		for j := 0; j < 400; j++ {
+			out += fmt.Sprintf("line %d of functionary %d\n\t\x1b[0m", j, i)
+		}
+		e := &Envelope{}
+		if err := e.SetPayload(Link{Type: "link", Name: fmt.Sprintf("n%d", i), ByProducts: map[string]interface{}{"stdout": out}}); err != nil {
+			return "setpayload error"
+		}
+		if err := e.Sign(vhEdKey(i%3, true)); err != nil {
+			return "dsse sign error"
+		}
+		if err := e.VerifySignature(vhEdKey(i%3, false)); err != nil {
+			return "dsse verify error"
+		}
+		return e.envelope.Payload[:40] + vRender(len(e.envelope.Payload))
+	}
+	rules := func(i int) string {
+		c := map[string]Metadata{"s": &Metablock{Signed: Link{Type: "link", Name: "s", Materials: map[string]HashObj{fmt.Sprintf("f%d", i): {"sha256": "ab"}}}}}
+		err := VerifyArtifacts([]interface{}{Step{Type: "step", SupplyChainItem: SupplyChainItem{Name: "s", ExpectedMaterials: [][]string{{"ALLOW", "f*"}, {"DISALLOW", "*"}}}}}, c)
+		_, err2 := SubstituteParameters(Layout{Steps: []Step{{ExpectedCommand: []string{"{P}"}}}}, map[string]string{"P": fmt.Sprint(i)})
+		return vRender(err == nil) + vRender(err2 == nil)
+	}
+	all := func(i int) string { return record(i) + signVerify(i) + dsse(i) + rules(i) }
 	seq := make([]string, n)
 	for i := 0; i < n; i++ {
-		seq[i] = record(i) + signVerify(i)
+		seq[i] = all(i)
 	}
 	done := make(chan string, n)
 	for i := 0; i < n; i++ {
 		go func(i int) {
 			bad := ""
 			for r := 0; r < 50; r++ {
-				if got := record(i) + signVerify(i); got != seq[i] {
+				if got := all(i); got != seq[i] {
 					bad = fmt.Sprintf("goroutine %d: concurrent result %q differs from sequential %q", i, got, seq[i])
 				}
 			}
